@@ -705,7 +705,7 @@ class ExprMixin(object):
             xp = SeqV(r.z, r.elem); xp.xproxy_of = r.z
             self.reg.assume('TableReaderBase.xproxy (_XProxy) presents the x components of the same list (3-line class, abstracted)')
             return [(xp, st)]
-        if isinstance(r, (DocObj, PyList, SeqV, PyDict, SymDict, SymSet, PySet, PyStr, Text, FnV, Sc, Tup, TupTerm)):
+        if isinstance(r, (DocObj, PyList, SeqV, PyDict, SymDict, SymSet, PySet, PyStr, Text, FnV, Sc, Tup, TupTerm, PyRegex)):
             return [(BoundMethod(recv, name), st)]
         if isinstance(r, ClassV):
             fi = r.module.find_method(r.name, name)
@@ -819,6 +819,11 @@ class ExprMixin(object):
             ct = self.reg.get('<ext>', '%s.__getitem__' % c.cls)
             if ct is None: raise Unsupported('subscript of external %s' % c.cls)
             return self.call_contract(ct, None, [c, i], {}, st, node)
+        if isinstance(c, Sc) and c.py == 'str' and isinstance(i, Sc) and i.py == 'int':
+            n_ = z3.Length(c.z)
+            s_bad = st.copy(); s_bad.pc.append(z3.Or(i.z >= n_, i.z < -n_)); self.raise_exc('IndexError', s_bad)
+            st.pc.append(z3.And(i.z < n_, i.z >= -n_))
+            return [(Sc(z3.SubString(c.z, z3.If(i.z >= 0, i.z, n_ + i.z), 1), 'str'), st)]
         if isinstance(c, TupTerm):
             if isinstance(i, Sc) and z3.is_int_value(i.z):
                 n = i.z.as_long(); S = c.z.sort()
@@ -960,6 +965,10 @@ def _has_quantifier(f):
         if z3.is_quantifier(x): return True
         stack.extend(x.children())
     return False
+
+class PyRegex(V):
+    """a compiled regular expression with a literal pattern"""
+    def __init__(self, pattern): self.pattern = pattern
 
 class InnerRef(V):
     """d.setdefault(k, {}) of a dictionary of dictionaries: an alias of the inner dictionary stored under k (stores go to the outer cell)"""
@@ -1877,6 +1886,12 @@ class CallMixin(object):
                     st.cells[recv.id] = SeqV(z3.Concat(base, src.z) if r.items else src.z, src.elem); return [(NONE, st)]
             if name == 'sort' and isinstance(r, PyList):
                 st.cells[recv.id] = PyList(self.sort_network(r.items, st)); return [(NONE, st)]
+            if name == 'sort' and isinstance(r, SeqV) and not args and not kw:
+                self.reg.assume('A4: list.sort() leaves the ordered permutation of the list (uninterpreted function sorted_seq with that meaning)')
+                st.cells[recv.id] = SeqV(sorted_seq_fn(r.z.sort())(r.z), r.elem); return [(NONE, st)]
+        if isinstance(r, PyRegex) and name == 'split' and len(args) == 1 and r.pattern in (r'\s+',) and isinstance(d[0], Sc) and d[0].py == 'str':
+            self.reg.assume("A4: re.compile(r'\\s+').split(s) on a stripped, non-empty s = the whitespace-separated tokens of s (the function split_ws also used for str.split())")
+            return [(SeqV(split_ws(d[0].z), T.Str), st)]
         if isinstance(r, SymSet) and name == 'add':
             st.cells[recv.id] = SymSet(z3.Store(r.has, self.key_term(args[0], st), z3.BoolVal(True)), r.kty)
             return [(NONE, st)]
@@ -1978,6 +1993,8 @@ class CallMixin(object):
         if isinstance(v, PyStr) and ty.kind == 'Text': return lit_doc(v.s)
         if isinstance(v, Sc) and ty.kind == 'Text': return self.text_of(v, st)
         if ty.kind == 'Real' and isinstance(v, Sc): return self.as_real(v)
+        if ty.kind == 'Tuple' and isinstance(v, Tup):
+            return _tuple_term([self.elem_term(i, t_, st) for i, t_ in zip(v.items, ty.args)])
         if ty.kind == 'Val':
             if isinstance(v, NoneV): return Val.VN
             if isinstance(v, Sc) and v.py != 'val': return to_val(v.z)
@@ -2279,6 +2296,8 @@ class CallMixin(object):
                 self.reg.assume('A4: bisect.bisect_left on the x components (uninterpreted index function characterised by the bisect axioms in the precondition)')
                 return [(Sc(BIS(a.xproxy_of, self.as_real(self.deref(args[1], st))), 'int'), st)]
             raise Unsupported('bisect_left over %r' % (a,))
+        if mod == 're' and name == 'compile' and len(args) == 1 and isinstance(self.deref(args[0], st), PyStr):
+            return [(PyRegex(self.deref(args[0], st).s), st)]
         if mod == 'functools' and name == 'reduce' and len(args) == 2:
             f_ = self.deref(args[0], st); xs = self.deref(args[1], st)
             if isinstance(f_, FuncV): f_ = Sc(comb_const(f_.fi.file, f_.fi.qualname), 'comb')
@@ -2402,7 +2421,7 @@ class Executor(Exec, ExprMixin, StmtMixin, CallMixin):
             return st.new_cell(SeqV(z3.Const(nm, z3.SeqSort(ty.args[0].sort())), ty.args[0]))
         if k == 'ListObj':
             v = SeqV(z3.Const(nm, z3.SeqSort(ty.args[1].sort())), ty.args[1]); v.cls = ty.args[0]
-            return v
+            return st.new_cell(v) if nm in self.contract.modifies else v
         if k == 'Opt':
             return Opt(z3.Const(nm + '?none', BoolS), self.make_input(nm, ty.args[0], st))
         if k == 'None': return NONE
